@@ -1,5 +1,6 @@
 import Norad.Lemmas.C12
 import Norad.Lemmas.C02
+import Norad.Lemmas.GlifGen
 import Norad.Props.C11
 /-!
 # C12 — glif documents breaking the structure rules are rejected, legal ones accepted
@@ -603,7 +604,12 @@ theorem attr_order_irrelevant (s : PS) {l₁ l₂ : List Attr} (hp : l₁.Perm l
 --   `glyph_attr_order_irrelevant` (section "attribute order, remaining loops" below).
 -- Third phase: `component_attr_order_irrelevant`, `image_attr_order_irrelevant` (all nine loops now), and for whole
 --   documents `parseGlif_attr_order_irrelevant` (section "attribute order, image/component and whole documents").
--- OPEN: legal_accepted for the whole grammar `Spec.flatten d` (any element order, comments anywhere, both versions).
+-- Third phase: `legal_accepted` (end of this file) for the generative grammar `render f d` of `Lemmas/GlifGen.lean`: format 2,
+--   items in ANY order, comments anywhere, any attribute order (`EvsPerm`), any spelling that reads back.
+-- OPEN: the link from the table-driven specification `Spec.judge rd (d : Spec.Doc) = ([], false)` to the hypotheses of
+--   `legal_accepted` (per-element: `judge`-clean attribute list ⇒ a permutation of the canonical list of a valid object),
+--   and format 1.  Earlier note, kept:
+-- (was OPEN) legal_accepted for the whole grammar `Spec.flatten d` (any element order, comments anywhere, both versions).
 --   Kernel-checked instead (second phase, `Lemmas/C02.lean`, listed in the audit): acceptance element family by element
 --   family, each for ANY parser state at the right level (= any position of any document) and any spelling `shw` of the
 --   numbers that Rust's parser reads back: `step_advance`, `reach_unicodes`, `step_image`, `step_anchor`/`reach_anchors`,
@@ -992,6 +998,26 @@ theorem legal_accepted_canonical (hc : Codec f rd nc ok) {g : Glyph} (hv : Valid
   have hw : writtenLib g = g.lib := by simp [writtenLib, dump_empty_of_no_libs hobj]
   have : dictGet objectLibsKey (preG f nc g).lib = none := by simpa [preG, hw] using hkey
   simp [loadObjectLibs, this]
+
+end
+
+/-! ### legal documents are accepted: the whole grammar -/
+
+section
+variable {f : Fmt} {rd : Str → Option Nat} {nc : Color → Color} {ok : Nat → Prop}
+
+/-- **legal_accepted**: a document of the generative grammar (format 2; items in any order; comments before the root,
+    between items, inside `outline` and `contour`; content after `</glyph>`; any spelling of numbers and colours that reads
+    back) whose items obey the rules, and whose lib — if it uses `public.objectLibs` — holds a dictionary of dictionaries
+    there, is accepted; so is every document that differs from it only in the order of attributes (`EvsPerm`). -/
+theorem legal_accepted (hc : Codec f rd nc ok) (d : GDoc) (hp : ∀ e, e ∈ d.prolog → isProlog e = true)
+    (hn : validName d.name = true) (hL : LegalItems ok d.items)
+    (hol : ∀ v, dictGet objectLibsKey (interp nc d).lib = some v → ∃ ol, v = PV.dict ol ∧ AllDicts ol)
+    {evs : List Ev} (hperm : EvsPerm (render f d) evs) :
+    ∃ g, parseGlif rd evs = .ok g ∧ loadObjectLibs (interp nc d) = .ok g := by
+  obtain ⟨g, hg⟩ := loadObjectLibs_ok hol
+  refine ⟨g, ?_, hg⟩
+  rw [← parseGlif_attr_order_irrelevant rd hperm, legal_accepted_gdoc hc d hp hn hL, hg]
 
 end
 
